@@ -296,6 +296,9 @@ func (r *Run) End(t testing.TB) {
 		r.flush(true, fmt.Sprint(rec))
 		panic(rec)
 	}
+	if d, err := os.ReadDir("/proc/self/fd"); err == nil {
+		r.Note("open_fds_at_end", len(d))
+	}
 	failed := t.Failed()
 	why := ""
 	if failed {
